@@ -82,6 +82,9 @@ fn proxy_impl(attr: TokenStream, input: TokenStream) -> Result<TokenStream, Erro
             if !chain_impl.is_empty() {
                 chain_method_impls.push(chain_impl);
             }
+
+            // All generators have seen the argument attributes; drop them from the trait.
+            utils::strip_param_attrs(&mut method.sig);
         }
     }
 
